@@ -95,7 +95,9 @@ func runPolling(env *sess.Env, c *PollCase, dir string) (violation string, timin
 			if !halted {
 				halted, haltedAt = true, time.Now()
 			}
-			if st.Status != want {
+			// Replacing the root by a file is not atomic (remove, then create):
+			// a polling scan in between legitimately sees a deleted root.
+			if st.Status != want && !(c.Trigger == "root-to-file" && st.Status == synchronization.Status_HaltedOnRootDeletion) {
 				return fmt.Sprintf("halted with status %v, want %v", st.Status, want), false
 			}
 		} else if halted {
